@@ -1,6 +1,7 @@
 module cltf
 
-go 1.21
+go 1.23.0
+
 toolchain go1.24.1
 
 require (
